@@ -64,9 +64,9 @@ def run(ctx, mode):
                           name="Client, 2 starts, robust invariants on every interleaving")
         scheds = []
         for cfg, name, ma, cc, fb, smp in [
-                ("ClientMC_cover.cfg", "transition cover source: 1 start, default retransmission, 1 failing write, 1 response", 7, True, True, 5000 if quick else None),
-                ("ClientMC_cover_deep.cfg", "transition cover source: the whole retransmission chain (7 retransmissions, final timeout), a failing write at any attempt", 7, True, True, None),
-                ("ClientMC_cover_noretx.cfg", "transition cover source: WithNoRetransmit, duplicate response, junk datagram", 0, True, True, 3000 if quick else None),
+                ("ClientMC_cover.cfg", "transition cover source: 1 start, default retransmission, 1 failing write, 1 response", 7, True, True, 4000 if quick else None),
+                ("ClientMC_cover_deep.cfg", "transition cover source: the whole retransmission chain (7 retransmissions, final timeout), a failing write at any attempt", 7, True, True, 3000 if quick else None),
+                ("ClientMC_cover_noretx.cfg", "transition cover source: WithNoRetransmit, duplicate response, junk datagram", 0, True, True, 2500 if quick else None),
                 ("ClientMC_cover_noconnclose.cfg", "transition cover source: WithNoConnClose, no fallback handler", 7, False, False, 1500 if quick else None)]:
             s, ns, ne = schedules_from_model(ctx, cfg, name, ma, closeconn=cc, fallback=fb, sample=smp)
             stats[cfg] = {"states": ns, "edges": ne, "replayed": len(s)}
